@@ -15,7 +15,8 @@ class Prop:
     k_names = ["numbering(device under co-simulation == Nonce.Seq.dstep incl. sendNonce after every step; Nonce.Spec.seq_check on the observed datagrams; the device comes to rest)",
                "stress(every (receiver index, counter) seen under concurrent flushers passes Nonce.Spec.conc_holdsb)"]
     rule = ("sequential scenarios: one peer, events {TUN batch 1..128, VerifSetSendNonce to 0 / 2^60-1..2^60+1 / Reject-130..Reject+2, "
-            "handshake answer by the independent party (device = initiator), handshake initiated by the independent party and confirmed by "
+            "Bind.Send error on a transport batch (clean / partial k of n) or on the initiation, "
+            "retransmit timer in two real-time scenarios run concurrently, handshake answer by the independent party (device = initiator), handshake initiated by the independent party and confirmed by "
             "its first data message (device = RESPONDER), 5 s-spacing shift, UAPI keepalive toggle}, two directed scenarios per boundary "
             "value (one per role) plus random ones from ONE PRNG; non-trivial = the scenario makes the device hold packets (exhausted/straddle/no key) "
             "or pass 2^60; distinct by content hash.  stress traces: 1-3 peers, 6 kinds of concurrent flushers, GOMAXPROCS/gate-sleep/"
@@ -83,21 +84,22 @@ class Prop:
         return [f for f in fs if not (cases[f["case"]].get("slow") and cases[f["case"]]["kind"] == "seq")]
 
     def stats(self, outputs):
-        tot = [0] * 13
+        tot = [0] * 16
         for o in outputs.values():
             v = vlib.parse_n_list(vlib.coq_value(o, "st"))
             tot = [a + b for a, b in zip(tot, v)]
         names = ["all_numbered", "straddle_numbered_and_held", "exhausted_at_top_check", "no_key_staged",
                  "initiation_after_2^60", "initiation_suppressed_by_spacing", "new_session_delivers_held", "new_session_keepalive",
                  "stress_transports", "stress_keys", "stress_non_consecutive_neighbours",
-                 "responder_session_confirmed_by_data", "initiation_after_2^60_as_responder"]
+                 "responder_session_confirmed_by_data", "initiation_after_2^60_as_responder",
+                 "transport_send_refused_by_bind", "initiation_refused_by_bind", "retransmit_timer_with_unanswered_initiation"]
         return dict(zip(names, tot))
 
     def run_cases(self, cases):
         d = os.path.join(self.dir, "rerun")
         os.makedirs(d, exist_ok=True)
         inp = os.path.join(d, "in.json")
-        json.dump([{"kind": c.get("kind", "seq"), "evs": c.get("evs"), "cfg": c.get("cfg")} for c in cases], open(inp, "w"))
+        json.dump([{"kind": c.get("kind", "seq"), "evs": c.get("evs"), "cfg": c.get("cfg"), "long": c.get("long", False)} for c in cases], open(inp, "w"))
         exe = vlib.build_go("c04")
         rc, o = vlib.sh([exe, "-replay", inp, "-out", d], cwd=vlib.ROOT, timeout=1800)
         if rc != 0:
@@ -114,7 +116,7 @@ class Prop:
         return self._fails(meta["shards"], files, outs)
 
     def shrink_candidates(self, case):
-        if case.get("kind") != "seq" or case.get("stuck"):
+        if case.get("kind") != "seq" or case.get("stuck") or case.get("long"):
             return      # stress traces and stuck scenarios (each attempt costs ~20 s) are reported as they are
         evs = case["evs"]
         n = len(evs)
@@ -161,8 +163,8 @@ class Prop:
             return "transport-does-not-open-or-foreign-packet"
         sub, sent, allowed, nxt, role = set(), set(), True, None, {}
         for e, o in zip(evs, obs):
-            if e["k"] == "tun":
-                sub |= set(range(o.get("first", 0), o.get("first", 0) + e.get("n", 0)))
+            if e["k"] in ("tun", "tunerr", "tunierr"):
+                sub |= set(range(o.get("first", 0), o.get("first", 0) + e.get("n", 0))) - set(o.get("lost") or [])
             sent |= {t["p"] for t in (o.get("tx") or []) if t["p"] != 0}
             fresh = o.get("idx") if e["k"] == "ans" else (nxt if e["k"] == "refdata" else None)
             if e["k"] == "ans":
@@ -171,9 +173,13 @@ class Prop:
                 role[o.get("idx")] = "responder"
             if fresh is not None and any(t["i"] == fresh for t in (o.get("tx") or [])) and sub - sent:
                 return "held-packets-not-delivered-by-new-session"
-            passed = [t for t in (o.get("tx") or []) if t["c"] > REKEY]
+            passed = [t for t in (o.get("tx") or []) if t["c"] > REKEY] if e["k"] != "tunerr" else []
             due = bool(passed) or bool(sub - sent)
-            flush = e["k"] in ("tun", "ans", "uapi") or (e["k"] == "refdata" and nxt is not None)
+            flush = e["k"] in ("tun", "tunerr", "ans", "uapi") or (e["k"] == "refdata" and nxt is not None)
+            if e["k"] == "retransmit" and (sub - sent) and o.get("init", 0) == 0:
+                return "no-retransmission-of-refused-or-unanswered-initiation-packets-stuck"
+            if e["k"] == "tunierr" and due and allowed:
+                allowed = False
             if allowed and flush and due and o.get("init", 0) == 0:
                 return "no-initiation-when-due" + ("-device-was-%s" % role.get(passed[0]["i"], "unknown") if passed else "")
             if e["k"] == "allow":
@@ -191,12 +197,12 @@ class Prop:
             return c["info"]["keys"] > 1 and c["info"]["transports"] >= 1000
         if c.get("stuck"):
             return True
-        sub = sum(e.get("n", 0) for e in c["evs"] if e["k"] == "tun")
+        sub = sum(e.get("n", 0) for e in c["evs"] if e["k"] in ("tun", "tunerr", "tunierr"))
         held = False
         sent = 0
         for e, o in list(zip(c["evs"], c["obs"]))[1:]:       # the first batch only starts the first handshake
             data = sum(1 for t in (o.get("tx") or []) if t["p"] != 0)
-            if e["k"] == "tun" and data < e.get("n", 0):
+            if e["k"] in ("tun", "tunerr", "tunierr") and data < e.get("n", 0):
                 held = True
         passed = any(t["c"] >= REKEY for o in c["obs"] for t in (o.get("tx") or []))
         return sub > 1 and (held or passed)
